@@ -197,6 +197,10 @@ pub struct C16Case {
   /// ended; the script is played again
   #[serde(default)]
   pub second: bool,
+  /// two subscriptions of the same observable value alive at the same time (timeout, sample,
+  /// debounce over the hot source): each is judged by itself
+  #[serde(default)]
+  pub both: bool,
   pub sched: SchedJson,
 }
 
@@ -219,7 +223,11 @@ fn c16_strategy(_ctx: &Ctx) -> BoxedStrategy<C16Case> {
       // call that returns: not the kinds that run inside subscribe or are unsubscribed by
       // the script itself)
       let second = second && !matches!(kind, "interval_unsub" | "interval_default" | "timer_default" | "interval_slow" | "interval_us" | "timer_us");
-      C16Case { kind: kind.to_string(), d, gaps, ending: if second { 1 } else { ending }, n, second, sched }
+      // (instead of a second round: both subscriptions at once, for the operators that do not
+      // hold the emitting thread)
+      let both = second && n % 2 == 0 && matches!(kind, "timeout" | "sample" | "debounce");
+      let second = second && !both;
+      C16Case { kind: kind.to_string(), d, gaps, ending: if second { 1 } else { ending }, n, second, both, sched }
     })
     .boxed()
 }
@@ -332,6 +340,10 @@ fn c16_build(c: &C16Case) -> Case {
   };
   root.renumber();
   let mut recorders = vec![vec![]];
+  if c.both {
+    actions.insert(1, Action::Subscribe(1));
+    recorders.push(vec![]);
+  }
   if c.second {
     // The first subscription is cut off right after its last emission (whatever it has
     // latched or armed by then must not reach the second one), its timers run out, then the
@@ -387,6 +399,18 @@ fn c16_check(_ctx: &Ctx, c: &C16Case) -> Report {
     if !same {
       let show = |v: &Vec<(Rk, u64)>| v.iter().map(|(k, t)| format!("{}@{}us", k.show(), t)).collect::<Vec<_>>().join(" ");
       rep.fail = fail(format!("{} with a period of {} us: got <{}>, expected <{}>", c.kind, us, show(&got), show(&exp)));
+    }
+    return rep;
+  }
+  if c.both {
+    rep.classes.push("two-subscriptions-at-once".into());
+    for k in 0..2 {
+      let got: Vec<(Rk, u64)> = r.log.recs[k].iter().map(|e| (e.k.clone(), e.vt / MS)).collect();
+      let failk = |m: String| fail(format!("subscription {} of two alive at once: {}", k, m));
+      c16_judge(c, got, &mut rep, &failk);
+      if rep.fail.is_some() {
+        break;
+      }
     }
     return rep;
   }
@@ -779,11 +803,16 @@ fn c16_conc_check(_ctx: &Ctx, c: &C16ConcCase) -> Report {
     expected.sort();
     if got != expected || after_terminal {
       rep.fail = fail(format!("timeout({}).delay({}) handed on (item, ms) {:?}, expected {:?}", c.d, SLOW_MS, got, expected));
-    } else if errs != vec![(CODE_TIMEOUT, last + c.d)] {
-      rep.fail = fail(format!(
-        "timeout({}).delay({}): terminal events (code, ms) {:?}, expected one TimedOut at {} ms ({} ms after the last hand-over)",
-        c.d, SLOW_MS, errs, last + c.d, c.d
-      ));
+    } else {
+      // (d after the last item: counted from its arrival or from its hand-over, both readings
+      // of "after an item" are accepted here)
+      let ok = errs.len() == 1 && errs[0].0 == CODE_TIMEOUT && errs[0].1 + SLOW_MS >= last + c.d && errs[0].1 <= last + c.d;
+      if !ok {
+        rep.fail = fail(format!(
+          "timeout({}).delay({}): terminal events (code, ms) {:?}, expected one TimedOut between {} and {} ms ({} ms after the last item arrived / was handed on)",
+          c.d, SLOW_MS, errs, last + c.d - SLOW_MS, last + c.d, c.d
+        ));
+      }
     }
     return rep;
   }
@@ -838,7 +867,7 @@ pub fn properties() -> Vec<Property> {
     },
     Property {
       id: "C16",
-      rule: "cases = kind in {interval.take(n), interval unsubscribed between ticks, interval / timer with periods of 900, 2900, 10500, 25250 us, interval under a subscriber that takes 3..40 ms per tick (ticks consecutive, none early), timer, interval / timer on the default scheduler (run inside subscribe), delay, timeout, timeout with a slow subscriber, sample, debounce, time_interval} x period in {10, 25} ms x gap scripts from {3,7,9,11,15,40} ms (never equal to the period) x ending x generated schedule, 30 % subscribed a second time after the first subscription was cut off right after its last emission (only the second round is judged, counted from its subscribe); oracle = (virtual time, event) pairs equal the timing definition (sample/debounce: strictly increasing selection of source items; sample exact when no tick coincides with an emission); non-trivial = >= 3 timed events; two_threads: delay(d) over one hot source or a merge of two, fed by two emitting threads with generated gaps - every item is handed on exactly d after it was emitted, also while another thread's item is being delayed; or timeout(d).delay(5) fed by two threads with gaps below d - exactly one TimedOut, d after the last hand-over",
+      rule: "cases = kind in {interval.take(n), interval unsubscribed between ticks, interval / timer with periods of 900, 2900, 10500, 25250 us, interval under a subscriber that takes 3..40 ms per tick (ticks consecutive, none early), timer, interval / timer on the default scheduler (run inside subscribe), delay, timeout, timeout with a slow subscriber, sample, debounce, time_interval} x period in {10, 25} ms x gap scripts from {3,7,9,11,15,40} ms (never equal to the period) x ending x generated schedule, 30 % subscribed a second time after the first subscription was cut off right after its last emission (only the second round is judged, counted from its subscribe) or - timeout / sample / debounce - by two subscribers at once (each judged by itself); oracle = (virtual time, event) pairs equal the timing definition (sample/debounce: strictly increasing selection of source items; sample exact when no tick coincides with an emission); non-trivial = >= 3 timed events; two_threads: delay(d) over one hot source or a merge of two, fed by two emitting threads with generated gaps - every item is handed on exactly d after it was emitted, also while another thread's item is being delayed; or timeout(d).delay(5) fed by two threads with gaps below d - exactly one TimedOut, d after the last hand-over",
       assumptions: vec!["virtual clock owned by the runtime (thread::sleep / Instant redirected)", "timeout arms its timer after the first item (as the statement words it)"],
       subs: vec![
         mk_sub("clock", (1000, 20_000), c16_strategy, c16_check),
